@@ -302,7 +302,7 @@ pub fn compose(j: &Session, list: &[String], list_label: &str, kb: &KbItem, exp_
     }
 }
 
-fn lists_for(j: &Session) -> Vec<(String, Vec<String>)> {
+pub fn lists_for(j: &Session) -> Vec<(String, Vec<String>)> {
     let g: Vec<String> = j.genuine.iter().map(|x| x.1.clone()).collect();
     let mut out: Vec<(String, Vec<String>)> = vec![];
     let mut push = |label: &str, v: Vec<String>| {
